@@ -1,57 +1,1037 @@
-import sys, json, random, subprocess
+"""Model correspondence for the literal hand models of C07 and C08.
+
+C07 — `Model/EdgeInfo.lean` (ops `model.edge_info`, `model.mesh_edge_info`) vs the edge
+incidence loop of `Polyface3D.__init__` and `MeshBase._compute_edge_info`:
+  * group `polyface_init`: random face-index structures (holes, repeated indices, degenerate
+    sides, naked / non-manifold configurations, reversed duplicates) -> `Polyface3D(verts,
+    faces)`: `edge_indices`, `edge_types`, `is_solid` must be IDENTICAL (order, orientation);
+    the `naked_edges / internal_edges / non_manifold_edges` selections must be the edges of
+    type 0 / 1 / >= 2 of the model's lists;
+  * group `polyface_factories`: `from_box`, `from_offset_face` (with holes, both orientations,
+    negative offsets) carry PRE-SEEDED tables: the model's computed edge info of their
+    `face_indices` must equal them as undirected multisets of (edge, type), same `is_solid`;
+    `from_faces` (closed / open / non-manifold shells) goes through `__init__` again: identical;
+  * group `mesh_edge_info`: `Mesh2D` / `Mesh3D` (`from_grid`, `Face3D.mesh_grid`, random
+    triangle / quad lists with repeated indices) `.edges` -> `_edge_indices`, `_edge_types`
+    identical; the three selections as above.
+C08 — `Model/PointInside.lean` (ops `model.point_inside`, `model.point_inside_bound_rect`,
+`model.point_on_edge`, `model.point_relationship`) vs `Polygon2D.is_point_inside`,
+`is_point_inside_bound_rect`, `is_point_on_edge`, `point_relationship` on random loops (simple
+and self-intersecting, both orientations), points incl. vertices / edge points / points level
+with a vertex, several test vectors.  Results are booleans / -1,0,1: compared exactly; a case
+whose exact test values come within 1e-9 of a threshold of the code (ray parameters 0 / 1,
+parallel test, distance == tolerance) is a float tie and is not compared — except on the
+lattice stream with an integer test vector, where the double arithmetic is exact and exact
+threshold hits ARE compared.
+"""
+import math
+import os
+import random
+import sys
+import time
 from fractions import Fraction
-sys.path.insert(0, '/repo')
-from ladybug_geometry.geometry3d.polyface import Polyface3D
-from ladybug_geometry.geometry3d.pointvector import Point3D
-from ladybug_geometry.geometry2d.polygon import Polygon2D
-from ladybug_geometry.geometry2d.pointvector import Point2D, Vector2D
-from ladybug_geometry.geometry2d.mesh import Mesh2D
-random.seed(7)
-reqs = []; expect = []
-def fr(x): return str(Fraction(x))
-for t in range(300):
-    nv = random.randint(3, 9)
-    faces = []
-    for _ in range(random.randint(1, 7)):
-        loops = []
-        for _ in range(random.choice([1, 1, 1, 2])):
-            k = random.randint(3, 5)
-            loops.append([random.randrange(nv) for _ in range(k)])
-        faces.append(loops)
-    verts = [Point3D(i, i * i, 0) for i in range(nv)]
-    pf = Polyface3D(verts, faces)
-    reqs.append({"id": len(reqs), "op": "model.edge_info", "args": [faces]})
-    expect.append([[list(e) for e in pf.edge_indices], list(pf.edge_types), pf.is_solid])
-for t in range(300):
-    n = random.randint(3, 8)
-    vs = [(random.randint(-4, 4), random.randint(-4, 4)) for _ in range(n)]
+
+if __name__ == '__main__':
+    sys.path.insert(0, os.path.dirname(os.path.dirname(os.path.abspath(__file__))))
+import lbg  # noqa: E402
+
+from ladybug_geometry.geometry2d.pointvector import Point2D, Vector2D  # noqa: E402
+from ladybug_geometry.geometry2d.polygon import Polygon2D  # noqa: E402
+from ladybug_geometry.geometry2d.mesh import Mesh2D  # noqa: E402
+from ladybug_geometry.geometry3d.pointvector import Point3D, Vector3D  # noqa: E402
+from ladybug_geometry.geometry3d.plane import Plane  # noqa: E402
+from ladybug_geometry.geometry3d.face import Face3D  # noqa: E402
+from ladybug_geometry.geometry3d.mesh import Mesh3D  # noqa: E402
+from ladybug_geometry.geometry3d.polyface import Polyface3D  # noqa: E402
+
+PROPS = ['C07', 'C08']
+MODELS = ['LbgVerif/Model/EdgeInfo.lean', 'LbgVerif/Model/PointInside.lean',
+          'LbgVerif/Model/Dispatch_EdgeInfo.lean']
+REAL = ['ladybug_geometry/geometry3d/polyface.py:Polyface3D.__init__ (edge loop, is_solid), '
+        'from_box, from_offset_face, from_faces, naked_edges, internal_edges, '
+        'non_manifold_edges',
+        'ladybug_geometry/_mesh.py:MeshBase._compute_edge_info (through Mesh2D / Mesh3D .edges, '
+        '.naked_edges, .internal_edges, .non_manifold_edges)',
+        'ladybug_geometry/geometry2d/polygon.py:Polygon2D.is_point_inside, '
+        'is_point_inside_bound_rect, is_point_on_edge, point_relationship']
+TRUSTED = [
+    'edgeinfo (C07): the selection "edges of type 0 / 1 / >= 2" is applied in Python to the '
+    "model's (edge_indices, edge_types) lists (the driver does not expose nakedEdges / "
+    'internalEdges / nonManifoldEdges); pre-seeded factory tables are compared as undirected '
+    'multisets only (their order / orientation is the factory\'s, not the loop\'s)',
+    'edgeinfo (C08): the model decides in exact rationals (distance: IEEE sqrt of the exact '
+    'argument); cases within 1e-9 of a decision threshold, or with a ray nearly parallel to an '
+    'edge it hits (conditioning > 2e5), are counted as float ties and not compared',
+]
+
+W = lbg.wnum
+REL = Fraction(1, 10 ** 9)
+GROUPS = {'C07': ['polyface_init', 'polyface_factories', 'mesh_edge_info'],
+          'C08': ['point_inside', 'point_inside_bound_rect', 'point_on_edge',
+                  'point_relationship']}
+STD_TV = (1.0, 0.00001)
+
+
+def bump(h, k, n=1):
+    h[k] = h.get(k, 0) + n
+
+
+# =================================================================== C07
+def verts3(n):
+    """n distinct lattice points in general position (coordinates identify the index)."""
+    return [Point3D(i, i * i, i % 3) for i in range(n)]
+
+
+def as_lists(faces):
+    return [[list(lp) for lp in face] for face in faces]
+
+
+def undirected(ei, et):
+    return sorted((min(a, b), max(a, b), t) for (a, b), t in zip(ei, et))
+
+
+def seg_key(seg):
+    p, q = seg.p, seg.p2
+    return (tuple(float(c) for c in p.to_array()), tuple(float(c) for c in q.to_array()))
+
+
+def select(ei, et, verts, pred):
+    """Edges of the model's lists whose type satisfies pred, as end-point coordinates."""
+    out = []
+    for (a, b), t in zip(ei, et):
+        if pred(t):
+            pa, pb = verts[a].to_array(), verts[b].to_array()
+            # LineSegment.from_end_points(pa, pb).p2 is pa + (pb - pa) in doubles
+            out.append((tuple(float(c) for c in pa),
+                        tuple(float(x + (y - x)) for x, y in zip(pa, pb))))
+    return out
+
+
+SELECTIONS = (('naked_edges', lambda t: t == 0), ('internal_edges', lambda t: t == 1),
+              ('non_manifold_edges', lambda t: t >= 2))
+
+
+def real_edge_case(case):
+    """Run the real side of a C07 case -> dict (exact tables, selections) or {'raise': ..}."""
     try:
-        pg = Polygon2D([Point2D(*v) for v in vs])
-    except Exception:
-        continue
-    for _ in range(4):
-        p = (random.randint(-5, 5) / random.choice([1, 2]), random.randint(-5, 5) / random.choice([1, 2]))
-        d = random.choice([(1, 0), (0, 1), (1, 0.00001), (random.randint(-3, 3), random.randint(1, 3))])
-        r = pg.is_point_inside(Point2D(*p), Vector2D(*d))
-        r2 = pg.is_point_inside_bound_rect(Point2D(*p), Vector2D(*d))
-        a = [[[fr(x), fr(y)] for x, y in vs], [fr(p[0]), fr(p[1])], [fr(d[0]), fr(d[1])]]
-        reqs.append({"id": len(reqs), "op": "model.point_inside", "args": a}); expect.append(r)
-        reqs.append({"id": len(reqs), "op": "model.point_inside_bound_rect", "args": a}); expect.append(r2)
-        tol = 0.25
-        r3 = pg.point_relationship(Point2D(*p), tol)
-        a3 = [a[0], a[1], fr(tol), [fr(1), fr(0.00001)]]
-        reqs.append({"id": len(reqs), "op": "model.point_relationship", "args": a3}); expect.append(r3)
-inp = '\n'.join(json.dumps(r) for r in reqs) + '\n'
-out = subprocess.run(['lake', 'env', 'lean', '--run', 'Driver.lean'], cwd='/tmp/agents/p_c07c08/lean',
-                     input=inp, capture_output=True, text=True)
-lines = [l for l in out.stdout.splitlines() if l.startswith('{')]
-bad = 0
-for l in lines:
-    j = json.loads(l)
-    if not j['ok']:
-        print('ERR', j); bad += 1; continue
-    if j['val'] != expect[j['id']]:
-        bad += 1
-        if bad < 6: print('MISMATCH', reqs[j['id']], j['val'], expect[j['id']])
-print(len(lines), 'answers', len(reqs), 'requests', bad, 'bad')
-print(out.stderr[-2000:])
+        kind = case['kind']
+        if 'factory' in case:
+            obj = build_factory(case['factory'])
+            verts = list(obj.vertices)
+            res = {'edge_indices': [list(e) for e in obj.edge_indices],
+                   'edge_types': list(obj.edge_types), 'is_solid': obj.is_solid,
+                   'face_indices': as_lists(obj.face_indices)}
+        elif kind == 'polyface':
+            verts = verts3(case['nv'])
+            obj = Polyface3D(verts, [tuple(tuple(lp) for lp in f) for f in case['faces']])
+            ei, et = obj.edge_indices, obj.edge_types
+            res = {'edge_indices': [list(e) for e in ei], 'edge_types': list(et),
+                   'is_solid': obj.is_solid}
+        else:       # mesh2d / mesh3d with explicit faces
+            if 'vertices' in case:
+                vv = case['vertices']
+                verts = [Point2D(*v) if len(v) == 2 else Point3D(*v) for v in vv]
+                cls = Mesh2D if len(vv[0]) == 2 else Mesh3D
+                obj = cls(verts, [tuple(f) for f in case['faces']])
+            elif kind == 'mesh2d':
+                verts = [Point2D(i, i * i) for i in range(case['nv'])]
+                obj = Mesh2D(verts, [tuple(f) for f in case['faces']])
+            else:
+                verts = verts3(case['nv'])
+                obj = Mesh3D(verts, [tuple(f) for f in case['faces']])
+            obj.edges
+            res = {'edge_indices': [list(e) for e in obj._edge_indices],
+                   'edge_types': list(obj._edge_types)}
+        for name, _ in SELECTIONS:
+            res[name] = [seg_key(s) for s in getattr(obj, name)]
+        res['verts'] = verts
+        return res
+    except Exception as e:      # noqa: BLE001
+        return {'raise': type(e).__name__}
+
+
+def edge_request(case):
+    if case['kind'] == 'polyface':
+        return ('model.edge_info', [as_lists(case['faces'])])
+    return ('model.mesh_edge_info', [[list(f) for f in case['faces']]])
+
+
+def compare_edge_case(case, val, real):
+    """-> None | (what-key, model, real)."""
+    if 'raise' in real:
+        return 'raises %s' % real['raise'], val, real['raise']
+    ei = [list(e) for e in val[0]]
+    et = list(val[1])
+    if case.get('seeded'):      # factory with pre-seeded tables: undirected multisets
+        if undirected(ei, et) != undirected(real['edge_indices'], real['edge_types']):
+            return 'edge multiset differs from the pre-seeded table', \
+                undirected(ei, et), undirected(real['edge_indices'], real['edge_types'])
+    else:
+        if ei != real['edge_indices']:
+            return 'edge_indices differ', ei, real['edge_indices']
+        if et != real['edge_types']:
+            return 'edge_types differ', et, real['edge_types']
+    if case['kind'] == 'polyface' and bool(val[2]) != real['is_solid']:
+        return 'is_solid differs', val[2], real['is_solid']
+    if 'verts' in real and not case.get('seeded'):
+        for name, pred in SELECTIONS:
+            mine = select(ei, et, real['verts'], pred)
+            if mine != real[name]:
+                return '%s is not the selection of that type' % name, mine, real[name]
+    return None
+
+
+def edge_nontrivial(case, val):
+    """The loop takes a branch other than 'append': an edge is found again or a degenerate
+    side is skipped."""
+    if any(t >= 1 for t in val[1]):
+        return True
+    loops = [lp for f in case['faces'] for lp in f] if case['kind'] == 'polyface' \
+        else case['faces']
+    return any(lp[i - 1] == lp[i] for lp in loops for i in range(len(lp)))
+
+
+# ---- generators
+def gen_polyface(r):
+    nv = r.randint(3, 10)
+    style = r.random()
+    faces = []
+    if style < 0.45:            # anything goes: repeated indices, degenerate sides
+        for _ in range(r.randint(1, 7)):
+            loops = []
+            for _ in range(r.choice([1, 1, 1, 2, 3])):
+                loops.append([r.randrange(nv) for _ in range(r.randint(3, 5))])
+            faces.append(loops)
+    else:                       # loops of distinct vertices, edges re-used on purpose
+        pool = []
+        for _ in range(r.randint(2, 8)):
+            k = r.randint(3, min(5, nv))
+            if pool and r.random() < 0.6:
+                a, b = r.choice(pool)
+                if r.random() < 0.6:
+                    a, b = b, a             # consistent orientation: walk it backwards
+                rest = [v for v in range(nv) if v not in (a, b)]
+                r.shuffle(rest)
+                lp = [a, b] + rest[:k - 2]
+            else:
+                lp = r.sample(range(nv), k)
+            s = r.randrange(len(lp))
+            lp = lp[s:] + lp[:s]
+            for i in range(len(lp)):
+                pool.append((lp[i - 1], lp[i]))
+            loops = [lp]
+            if r.random() < 0.25 and nv >= 6:
+                loops.append(r.sample(range(nv), 3))       # a hole loop
+            faces.append(loops)
+        if r.random() < 0.15:
+            faces.append([list(reversed(faces[0][0]))])     # the same face, flipped
+        if r.random() < 0.1:
+            faces.append([list(faces[0][0])])               # the same face, again
+    return {'group': 'polyface_init', 'kind': 'polyface', 'nv': nv, 'faces': faces,
+            'style': 'arbitrary' if style < 0.45 else 'shared-edges'}
+
+
+def closed_shell(r):
+    """Index structure of a closed prism / pyramid / tetrahedron, optionally damaged."""
+    k = r.randint(3, 6)
+    if r.random() < 0.5:        # prism over a k-gon: vertices 0..k-1 bottom, k..2k-1 top
+        faces = [[list(reversed(range(k)))], [list(range(k, 2 * k))]]
+        for i in range(k):
+            j = (i + 1) % k
+            faces.append([[i, j, j + k, i + k]])
+        nv = 2 * k
+    else:                       # pyramid
+        faces = [[list(reversed(range(k)))]]
+        for i in range(k):
+            faces.append([[i, (i + 1) % k, k]])
+        nv = k + 1
+    damage = r.random()
+    what = 'closed'
+    if damage < 0.3:
+        faces.pop(r.randrange(len(faces)))
+        what = 'open (face removed)'
+    elif damage < 0.45:
+        f = r.choice(faces)
+        faces.append([[f[0][0], f[0][1], nv]])
+        nv += 1
+        what = 'non-manifold (fin)'
+    elif damage < 0.55:
+        i = r.randrange(len(faces))
+        faces[i] = [list(reversed(faces[i][0]))]
+        what = 'one face flipped'
+    r.shuffle(faces)
+    return {'group': 'polyface_init', 'kind': 'polyface', 'nv': nv, 'faces': faces,
+            'style': 'shell: ' + what}
+
+
+def gen_mesh_faces(r):
+    nv = r.randint(3, 10)
+    faces = []
+    style = r.random()
+    for _ in range(r.randint(1, 8)):
+        k = r.choice([3, 3, 4]) if nv >= 4 else 3
+        if style < 0.4:
+            faces.append([r.randrange(nv) for _ in range(k)])
+        else:
+            faces.append(r.sample(range(nv), k))
+    if r.random() < 0.2:
+        faces.append(list(reversed(faces[0])))
+    return {'group': 'mesh_edge_info', 'kind': r.choice(['mesh2d', 'mesh3d']), 'nv': nv,
+            'faces': faces, 'style': 'arbitrary' if style < 0.4 else 'distinct'}
+
+
+def lat(r, lo=-6, hi=6, den=2):
+    return r.randint(lo * den, hi * den) / float(den)
+
+
+def random_plane(r):
+    if r.random() < 0.5:
+        n = r.choice([Vector3D(0, 0, 1), Vector3D(0, 0, -1), Vector3D(1, 0, 0),
+                      Vector3D(0, 1, 0)])
+    else:
+        while True:
+            n = Vector3D(r.gauss(0, 1), r.gauss(0, 1), r.gauss(0, 1))
+            if n.magnitude > 0.2:
+                break
+        n = n.normalize()
+    return Plane(n, Point3D(lat(r), lat(r), lat(r)))
+
+
+OUTLINES = [
+    [(0, 0), (6, 0), (6, 6), (0, 6)],
+    [(0, 0), (8, 0), (8, 4), (4, 4), (4, 8), (0, 8)],
+    [(0, 0), (8, 0), (4, 7)],
+    [(0, 0), (4, -1), (8, 2), (7, 7), (2, 8), (-1, 4)],
+]
+HOLES = {0: [[(1, 1), (2, 1), (2, 2), (1, 2)], [(3, 3), (3, 5), (5, 5)]],
+         1: [[(1, 1), (3, 1), (3, 3), (1, 3)], [(1, 5), (3, 5), (2, 7)]],
+         3: [[(2, 2), (4, 2), (4, 4)], [(5, 4), (6, 4), (6, 6), (5, 6)]]}
+
+
+def arr3(p):
+    return [float(c) for c in p.to_array()]
+
+
+def plane_desc(pl):
+    return None if pl is None else [arr3(pl.n), arr3(pl.o), arr3(pl.x)]
+
+
+def plane_of(d):
+    return None if d is None else Plane(Vector3D(*d[0]), Point3D(*d[1]), Vector3D(*d[2]))
+
+
+def face_desc(f):
+    return {'b': [arr3(p) for p in f.boundary],
+            'h': None if not f.has_holes else [[arr3(p) for p in h] for h in f.holes],
+            'plane': plane_desc(f.plane)}
+
+
+def face_of(d):
+    return Face3D([Point3D(*p) for p in d['b']], plane_of(d['plane']),
+                  holes=None if d['h'] is None else [[Point3D(*p) for p in h] for h in d['h']])
+
+
+def build_factory(desc):
+    """Factory description (JSON-able) -> real Polyface3D."""
+    if desc['f'] == 'from_box':
+        return Polyface3D.from_box(desc['w'], desc['d'], desc['h'], plane_of(desc['plane']))
+    if desc['f'] == 'from_offset_face':
+        return Polyface3D.from_offset_face(face_of(desc['face']), desc['offset'])
+    if desc['f'] == 'from_faces':
+        return Polyface3D.from_faces([face_of(f) for f in desc['faces']], desc['tol'])
+    raise ValueError(desc['f'])
+
+
+def real_factory_cases(r, n):
+    """Real factory objects -> cases (the model request is their face_indices)."""
+    out = []
+    for _ in range(n):
+        x = r.random()
+        if x < 0.25:
+            pl = random_plane(r) if r.random() < 0.7 else None
+            desc = {'f': 'from_box', 'w': r.choice([1, 2.5, 4]), 'd': r.choice([1, 3.0]),
+                    'h': r.choice([0.5, 2, 3.0]), 'plane': plane_desc(pl)}
+            src, seeded = 'from_box', True
+        elif x < 0.7:
+            pl = random_plane(r)
+            i = r.randrange(len(OUTLINES))
+            k = r.choice([1.0, 0.5, 2.0])
+            b = OUTLINES[i]
+            holes = None
+            if i in HOLES and r.random() < 0.6:
+                hs = r.sample(HOLES[i], r.randint(1, len(HOLES[i])))
+                hs = [list(reversed(h)) if r.random() < 0.5 else h for h in hs]
+                holes = [[arr3(pl.xy_to_xyz(Point2D(x_ * k, y_ * k))) for x_, y_ in h]
+                         for h in hs]
+            if r.random() < 0.4:
+                b = list(reversed(b))
+            desc = {'f': 'from_offset_face', 'offset': r.choice([1.0, 2.5, -1.5, 0.25]),
+                    'face': {'b': [arr3(pl.xy_to_xyz(Point2D(x_ * k, y_ * k))) for x_, y_ in b],
+                             'h': holes, 'plane': plane_desc(pl)}}
+            src = 'from_offset_face' + ('+holes' if holes else '')
+            seeded = True
+        else:
+            pl = random_plane(r)
+            w, dep = r.choice([1, 2]), r.choice([1, 3])
+            try:
+                base = Polyface3D.from_box(w, dep, 2, pl)
+                fs = list(base.faces)
+                y = r.random()
+                src = 'from_faces closed box'
+                if y < 0.35:
+                    fs.pop(r.randrange(len(fs)))
+                    src = 'from_faces open box'
+                elif y < 0.65:      # a second box on the far side of one face: shared face twice
+                    pl2 = Plane(pl.n, pl.o + pl.x * w, pl.x)
+                    other = Polyface3D.from_box(1, r.choice([dep, dep, 1]), 2, pl2)
+                    fs = fs + list(other.faces)
+                    src = 'from_faces two boxes side by side'
+                r.shuffle(fs)
+                desc = {'f': 'from_faces', 'tol': 0.01, 'faces': [face_desc(f) for f in fs]}
+            except Exception as e:      # noqa: BLE001
+                out.append({'group': 'polyface_factories', 'kind': 'polyface',
+                            'style': 'from_faces', 'faces': [], 'seeded': False,
+                            'real': {'raise': type(e).__name__}})
+                continue
+            seeded = False
+        case = {'group': 'polyface_factories', 'kind': 'polyface', 'style': src,
+                'seeded': seeded, 'factory': desc}
+        real = real_edge_case(case)
+        case['real'] = real
+        case['faces'] = real.get('face_indices', [])
+        out.append(case)
+    return out
+
+
+def real_mesh_cases(r, n):
+    out = []
+    for _ in range(n):
+        x = r.random()
+        try:
+            if x < 0.5:
+                m = Mesh2D.from_grid(Point2D(lat(r), lat(r)), r.randint(1, 4), r.randint(1, 3),
+                                     1.0, 0.5)
+                src = 'Mesh2D.from_grid'
+                if r.random() < 0.5:
+                    p = [r.random() < 0.7 for _ in m.faces]
+                    if any(p):
+                        m = m.remove_faces_only(p) if r.random() < 0.5 else m.remove_faces(p)[0]
+                        src += ' - faces'
+                if r.random() < 0.3:
+                    m = m.triangulated()
+                    src += ' triangulated'
+            else:
+                pl = random_plane(r)
+                b = r.choice(OUTLINES)
+                face = Face3D([pl.xy_to_xyz(Point2D(x_, y_)) for x_, y_ in b], pl)
+                m = face.mesh_grid(r.choice([1.0, 2.0, 1.5]), flip=r.random() < 0.3)
+                src = 'Face3D.mesh_grid'
+            m.edges
+            real = {'edge_indices': [list(e) for e in m._edge_indices],
+                    'edge_types': list(m._edge_types), 'verts': list(m.vertices)}
+            for name, _ in SELECTIONS:
+                real[name] = [seg_key(s) for s in getattr(m, name)]
+        except AssertionError:
+            continue
+        except Exception as e:      # noqa: BLE001
+            real = {'raise': type(e).__name__}
+            out.append({'group': 'mesh_edge_info', 'kind': 'mesh', 'style': 'factory',
+                        'faces': [], 'real': real})
+            continue
+        out.append({'group': 'mesh_edge_info', 'kind': 'mesh', 'style': src,
+                    'faces': [list(f) for f in m.faces], 'real': real,
+                    'vertices': [[float(c) for c in v.to_array()] for v in m.vertices]})
+    return out
+
+
+FIXED_C07 = [
+    {'kind': 'polyface', 'nv': 3, 'faces': [[[0, 1, 2]]]},                          # all naked
+    {'kind': 'polyface', 'nv': 3, 'faces': [[[0, 1, 2]], [[2, 1, 0]]]},             # closed pair
+    {'kind': 'polyface', 'nv': 3, 'faces': [[[0, 1, 2]], [[0, 1, 2]]]},             # same way twice
+    {'kind': 'polyface', 'nv': 4, 'faces': [[[0, 1, 2]], [[1, 0, 3]], [[0, 1, 3]]]},  # type 2
+    {'kind': 'polyface', 'nv': 3, 'faces': [[[0, 0, 1]], [[1, 1, 1]]]},             # degenerate sides
+    {'kind': 'polyface', 'nv': 7, 'faces': [[[0, 1, 2, 3], [4, 5, 6]], [[6, 5, 4]]]},  # hole loop
+    {'kind': 'polyface', 'nv': 4,
+     'faces': [[[0, 2, 1]], [[0, 1, 3]], [[1, 2, 3]], [[2, 0, 3]]]},                # tetrahedron
+    {'kind': 'polyface', 'nv': 4, 'faces': [[[0, 1]], [[1, 0]], [[2]], [[]]]},      # 2-, 1-, 0-loops
+    {'kind': 'mesh2d', 'nv': 4, 'faces': [[0, 1, 2], [2, 1, 3]]},
+    {'kind': 'mesh3d', 'nv': 4, 'faces': [[0, 1, 2], [0, 1, 2], [2, 1, 0]]},
+    {'kind': 'mesh2d', 'nv': 4, 'faces': [[0, 0, 1, 1], [1, 2, 3, 0]]},
+    {'kind': 'mesh3d', 'nv': 5, 'faces': [[0, 1, 2, 3], [1, 0, 4], [0, 1, 4]]},
+]
+
+
+def run_c07(ctx, out, hist, stop, thorough, found):
+    r = random.Random('%s/corr.edgeinfo.C07' % ctx.seed)
+    rounds = 0
+    while rounds == 0 or (thorough and time.time() < stop and rounds < 10):
+        cases = []
+        if rounds == 0:
+            for c in FIXED_C07:
+                c = dict(c, style='fixed corpus')
+                c['group'] = 'polyface_init' if c['kind'] == 'polyface' else 'mesh_edge_info'
+                cases.append(c)
+        n = 1500 if thorough else 900
+        for _ in range(n):
+            x = r.random()
+            cases.append(gen_polyface(r) if x < 0.45 else closed_shell(r) if x < 0.65
+                         else gen_mesh_faces(r))
+        cases.extend(real_factory_cases(r, n // 6))
+        cases.extend(real_mesh_cases(r, n // 8))
+        reqs = [edge_request(c) for c in cases]
+        answers = ctx.driver.run(reqs)
+        for c, (ok, val) in zip(cases, answers):
+            bump(hist['C07 group'], c['group'])
+            bump(hist['C07 style'], c['style'])
+            real = c['real'] if 'real' in c else real_edge_case(c)
+            bad = ('driver error', str(val)[:200], None) if not ok \
+                else compare_edge_case(c, val, real)
+            out['requests'] += 1
+            if ok and not bad:
+                bump(hist['C07 faces'], min(len(c['faces']), 12))
+                bump(hist['C07 edges'], min(len(val[0]) // 4 * 4, 40))
+                for t in val[1]:
+                    bump(hist['C07 edge types'], min(t, 4))
+                if c['kind'] == 'polyface':
+                    bump(hist['C07 is_solid'], str(bool(val[2])))
+                if edge_nontrivial(c, val):
+                    out['nontrivial'] += 1
+                if len(out['samples']) < 2 and c['group'] == 'polyface_init' and \
+                        2 <= len(c['faces']) <= 3 and rounds == 0 and c['style'] != 'fixed corpus':
+                    out['samples'].append({'op': edge_request(c)[0], 'args': edge_request(c)[1],
+                                           'model': val, 'agrees': True})
+            if bad:
+                sig = '%s (%s)|%s' % (edge_request(c)[0], c['group'], bad[0])
+                if sig not in found:
+                    found[sig] = {
+                        'signature': sig, 'op': edge_request(c)[0], 'args': edge_request(c)[1],
+                        'case': {k: c[k] for k in ('group', 'kind', 'nv', 'faces', 'seeded',
+                                                   'style', 'factory', 'vertices')
+                                 if k in c},
+                        'what': '%s on %s faces %s: model %s real %s' % (
+                            bad[0], c['style'], str(c['faces'])[:200], str(bad[1])[:200],
+                            str(bad[2])[:200]),
+                        'model': bad[1], 'real': bad[2],
+                        'seed': '%s/C07/round%d' % (ctx.seed, rounds)}
+        rounds += 1
+
+
+def shrink_c07(ctx, d, deadline):
+    """Drop faces one at a time while the same disagreement remains (explicit cases only)."""
+    c = d['case']
+    if 'factory' in c or 'vertices' in c or 'nv' not in c:
+        return d
+    what = d['signature'].split('|', 1)[1]
+    for _ in range(6):
+        if time.time() > deadline or len(c['faces']) <= 1:
+            break
+        cands = [dict(c, faces=c['faces'][:j] + c['faces'][j + 1:])
+                 for j in range(len(c['faces']))]
+        answers = ctx.driver.run([edge_request(x) for x in cands])
+        better = None
+        for x, (ok, val) in zip(cands, answers):
+            if not ok:
+                continue
+            bad = compare_edge_case(x, val, real_edge_case(x))
+            if bad and bad[0] == what:
+                better = (x, bad)
+                break
+        if better is None:
+            break
+        c, bad = better
+        d = dict(d, case=c, args=edge_request(c)[1], model=bad[1], real=bad[2],
+                 what='%s on faces %s: model %s real %s' % (
+                     bad[0], str(c['faces'])[:200], str(bad[1])[:200], str(bad[2])[:200]))
+    return d
+
+
+def replay_c07(ctx, d):
+    c = dict(d['case'])
+    real = real_edge_case(c)        # factories are rebuilt from their recorded description
+    if 'factory' in c:
+        c['faces'] = real.get('face_indices', c['faces'])
+    ok, val = ctx.driver.run([edge_request(c)])[0]
+    bad = ('driver error', str(val)[:200], None) if not ok else compare_edge_case(c, val, real)
+    if not bad:
+        return None
+    return dict(d, what='%s: model %s real %s' % (bad[0], str(bad[1])[:200], str(bad[2])[:200]),
+                model=bad[1], real=bad[2])
+
+
+# =================================================================== C08
+def fpt(p):
+    return [W(p[0]), W(p[1])]
+
+
+def exact_segments(vs):
+    """`Polygon2D._segments_from_vertices` in exact arithmetic: (p, v) per side, v = the
+    DOUBLE difference the code stores."""
+    n = len(vs)
+    segs = []
+    for i in range(n):
+        a, b = vs[i], vs[(i + 1) % n]
+        segs.append((a, b))
+    return segs
+
+
+def near(x, thr, scale, exact_ok):
+    """x within 1e-9 (relative to scale) of thr; an exact hit is a tie unless exact_ok."""
+    if x == thr:
+        return not exact_ok
+    return abs(x - thr) < REL * scale
+
+
+def inside_tie(vs, p, tv, exact_ok):
+    """Float-tie test for `is_point_inside(p, tv)`; vs, p, tv: tuples of Fractions."""
+    scale = max([Fraction(1)] + [abs(c) for v in vs for c in v] + [abs(p[0]), abs(p[1])])
+    for a, b in exact_segments(vs):
+        avx, avy = b[0] - a[0], b[1] - a[1]
+        t1, t2 = tv[1] * avx, tv[0] * avy
+        d = t1 - t2
+        if d == 0:
+            if not exact_ok and (avx != 0 or avy != 0):
+                return True
+            continue
+        if abs(d) <= REL * (abs(t1) + abs(t2)):
+            return True
+        dy, dx = a[1] - p[1], a[0] - p[0]
+        ua = (tv[0] * dy - tv[1] * dx) / d
+        if near(ua, 0, 1, exact_ok) or near(ua, 1, 1, exact_ok):
+            return True
+        if ua < 0 or ua > 1:
+            continue
+        ub = (avx * dy - avy * dx) / d
+        tvn = max(abs(tv[0]), abs(tv[1]))
+        if near(ub * tvn, 0, scale, exact_ok):
+            return True
+        if ub < 0:
+            continue
+        cond = (abs(avx) + abs(avy)) * (abs(tv[0]) + abs(tv[1])) / abs(d)
+        if cond > 2 * 10 ** 5 + 10:
+            return True
+    return False
+
+
+def exact_dist2(vs, p):
+    """Exact squared distance from p to the closed loop."""
+    best = None
+    for a, b in exact_segments(vs):
+        vx, vy = b[0] - a[0], b[1] - a[1]
+        d = vx * vx + vy * vy
+        if d == 0:
+            c = a
+        else:
+            u = ((p[0] - a[0]) * vx + (p[1] - a[1]) * vy) / d
+            u = max(min(u, 1), 0)
+            c = (a[0] + u * vx, a[1] + u * vy)
+        q = (p[0] - c[0]) ** 2 + (p[1] - c[1]) ** 2
+        best = q if best is None or q < best else best
+    return best
+
+
+def on_edge_tie(vs, p, tol):
+    """Some side has |distance - tol| <= 1e-9 * max(1, tol) (exact distances)."""
+    band = REL * max(Fraction(1), tol)
+    lo, hi = max(tol - band, Fraction(0)), tol + band
+    for a, b in exact_segments(vs):
+        vx, vy = b[0] - a[0], b[1] - a[1]
+        d = vx * vx + vy * vy
+        if d == 0:
+            c = a
+        else:
+            u = ((p[0] - a[0]) * vx + (p[1] - a[1]) * vy) / d
+            if abs(u) < REL or abs(u - 1) < REL:
+                pass            # clamping switch: both branches give (nearly) the same point
+            u = max(min(u, 1), 0)
+            c = (a[0] + u * vx, a[1] + u * vy)
+        q = (p[0] - c[0]) ** 2 + (p[1] - c[1]) ** 2
+        if lo * lo <= q <= hi * hi:
+            return True
+    return False
+
+
+def gen_polygon(r, stream):
+    """-> list of (x, y) doubles, kind."""
+    x = r.random()
+    if stream == 'lattice':
+        c = lambda: float(r.randint(-4, 4))          # noqa: E731
+        q = lambda v: round(v * 2) / 2.0             # noqa: E731
+    else:
+        c = lambda: r.uniform(-5, 5)                 # noqa: E731
+        q = lambda v: v                              # noqa: E731
+    if x < 0.3:
+        n = r.randint(3, 8)
+        return [(c(), c()) for _ in range(n)], 'random loop'
+    if x < 0.55:
+        n = r.randint(3, 9)
+        angs = sorted(r.uniform(0, 2 * math.pi) for _ in range(n))
+        rad = r.uniform(2, 5)
+        cx, cy = c(), c()
+        pts = [(q(cx + rad * math.cos(a)), q(cy + rad * math.sin(a))) for a in angs]
+        kind = 'convex'
+    elif x < 0.8:
+        n = r.randint(4, 10)
+        angs = sorted(r.uniform(0, 2 * math.pi) for _ in range(n))
+        cx, cy = c(), c()
+        pts = [(q(cx + r.uniform(1, 5) * math.cos(a)), q(cy + r.uniform(1, 5) * math.sin(a)))
+               for a in angs]
+        kind = 'star'
+    else:
+        base = r.choice([[(0, 0), (4, 0), (4, 2), (2, 2), (2, 4), (0, 4)],
+                         [(0, 0), (6, 0), (6, 4), (4, 4), (4, 2), (2, 2), (2, 4), (0, 4)],
+                         [(0, 0), (3, 0), (3, 3), (0, 3)],
+                         [(0, 0), (5, 0), (5, 1), (1, 1), (1, 4), (5, 4), (5, 5), (0, 5)]])
+        k = r.choice([1.0, 0.5, 2.0]) if stream == 'lattice' else r.uniform(0.5, 2)
+        dx, dy = c(), c()
+        pts = [(px * k + dx, py * k + dy) for px, py in base]
+        if stream != 'lattice' and r.random() < 0.5:
+            a = r.uniform(0, 2 * math.pi)
+            pts = [(px * math.cos(a) - py * math.sin(a), px * math.sin(a) + py * math.cos(a))
+                   for px, py in pts]
+        kind = 'rectilinear'
+    if r.random() < 0.5:
+        pts.reverse()
+    s = r.randrange(len(pts))
+    return pts[s:] + pts[:s], kind
+
+
+def gen_point(r, vs, stream):
+    xs, ys = [v[0] for v in vs], [v[1] for v in vs]
+    x = r.random()
+    if x < 0.5:
+        if stream == 'lattice':
+            den = r.choice([1, 2, 4])
+            return (r.randint(int(min(xs)) * den - den, int(max(xs)) * den + den) / float(den),
+                    r.randint(int(min(ys)) * den - den, int(max(ys)) * den + den) / float(den)), \
+                'box'
+        return (r.uniform(min(xs) - 1, max(xs) + 1), r.uniform(min(ys) - 1, max(ys) + 1)), 'box'
+    if x < 0.6:
+        return r.choice(vs), 'vertex'
+    if x < 0.75:
+        i = r.randrange(len(vs))
+        a, b = vs[i - 1], vs[i]
+        t = r.choice([0.5, 0.25, 0.75]) if stream == 'lattice' else r.random()
+        return (a[0] + (b[0] - a[0]) * t, a[1] + (b[1] - a[1]) * t), 'on side'
+    if x < 0.85:
+        i = r.randrange(len(vs))
+        a, b = vs[i - 1], vs[i]
+        t = r.choice([-0.5, 1.5, 2.0])
+        return (a[0] + (b[0] - a[0]) * t, a[1] + (b[1] - a[1]) * t), 'on side line'
+    v = r.choice(vs)        # level with a vertex: the horizontal ray runs through it
+    if r.random() < 0.5:
+        return (v[0] - r.choice([1.0, 2.5, 0.5, 7.0]), v[1]), 'level with vertex'
+    return (v[0], v[1] - r.choice([1.0, 2.5, 0.5, 7.0])), 'below vertex'
+
+
+def gen_tv(r, stream):
+    x = r.random()
+    if x < 0.35:
+        return STD_TV, 'std'
+    if x < 0.75 or stream == 'lattice':
+        return r.choice([(1.0, 0.0), (0.0, 1.0), (-1.0, 0.0), (0.0, -1.0), (1.0, 1.0),
+                         (float(r.randint(-3, 3)), float(r.randint(1, 3))),
+                         (2.0, -1.0)]), 'integer'
+    a = r.uniform(0, 2 * math.pi)
+    return (math.cos(a), math.sin(a)), 'unit'
+
+
+TOLS = [0.25, 0.01, 0.001, 0.1, 0.0, 1.0]
+
+FIXED_C08 = [
+    # (vertices, point, test vector, tolerance)
+    ([(0, 0), (4, 0), (4, 4), (0, 4)], (2, 2), (1.0, 0.0), 0.01),        # inside
+    ([(0, 0), (4, 0), (4, 4), (0, 4)], (5, 2), (1.0, 0.0), 0.01),        # outside, in no rect
+    ([(0, 0), (4, 0), (4, 4), (0, 4)], (-1, 0), (1.0, 0.0), 0.01),       # ray along a side
+    ([(0, 0), (4, 0), (4, 4), (0, 4)], (-1, 4), (1.0, 0.0), 0.01),
+    ([(0, 0), (4, 0), (4, 4), (0, 4)], (4, 2), (1.0, 0.0), 0.0),         # on a side, tol 0
+    ([(0, 0), (4, 0), (4, 4), (0, 4)], (0, 0), (0.0, 1.0), 0.25),        # a vertex
+    ([(0, 0), (4, 0), (2, 2), (4, 4), (0, 4)], (1, 2), (1.0, 0.0), 0.01),   # ray through reflex vertex
+    ([(0, 0), (4, 0), (2, 2), (4, 4), (0, 4)], (3, 2), (-1.0, 0.0), 0.01),
+    ([(0, 0), (4, 0), (2, 2), (4, 4), (0, 4)], (3, 2), (1.0, 0.0), 0.01),   # in the notch
+    ([(0, 4), (4, 4), (4, 0), (0, 0)], (1, 1), STD_TV, 0.01),               # clockwise
+    ([(0, 0), (4, 4), (4, 0), (0, 4)], (1, 2), STD_TV, 0.01),               # bow tie
+    ([(0, 0), (4, 4), (4, 0), (0, 4)], (2, 2), (1.0, 0.0), 0.01),           # bow tie crossing
+    ([(0, 0), (2, 0), (2, 0), (2, 3)], (1, 1), (1.0, 0.0), 0.01),           # repeated vertex
+    ([(0, 0), (4, 0), (4, 4), (0, 4)], (2, 4.25), STD_TV, 0.5),             # outside, near side
+    ([(0, 0), (4, 0), (4, 4), (0, 4)], (2, 3.5), STD_TV, 0.25),             # inside, far enough
+    ([(0, 0), (6, 0), (0, 6)], (1, 1), (0.0, 0.0), 0.01),                   # zero test vector
+]
+
+
+def c08_case(vs, p, tv, tol, stream, tvkind):
+    """-> case dict with wire args, exact data and tie flags."""
+    fv = [(Fraction(a), Fraction(b)) for a, b in vs]
+    fp = (Fraction(p[0]), Fraction(p[1]))
+    ftv = (Fraction(tv[0]), Fraction(tv[1]))
+    std = (Fraction(STD_TV[0]), Fraction(STD_TV[1]))
+    ftol = Fraction(tol)
+    exact_ok = stream == 'lattice' and tvkind in ('integer', 'std')
+    xs, ys = [v[0] for v in fv], [v[1] for v in fv]
+    in_rect = min(xs) <= fp[0] <= max(xs) and min(ys) <= fp[1] <= max(ys)
+    t_in = inside_tie(fv, fp, ftv, exact_ok)
+    t_edge = on_edge_tie(fv, fp, ftol)
+    d2 = exact_dist2(fv, fp)
+    # the ray test of point_relationship is only reached when the point is not on an edge
+    t_rel = t_edge or (d2 > ftol * ftol and in_rect and
+                       inside_tie(fv, fp, std, stream == 'lattice'))
+    return {'vs': [list(v) for v in vs], 'p': list(p), 'tv': list(tv), 'tol': tol,
+            'stream': stream, 'tvkind': tvkind, 'in_rect': in_rect,
+            'boundary': d2 == 0, 'near': d2 <= (4 * ftol) ** 2,
+            'ties': {'point_inside': t_in, 'point_inside_bound_rect': in_rect and t_in,
+                     'point_on_edge': t_edge, 'point_relationship': t_rel},
+            'wire': {'vs': [fpt(v) for v in vs], 'p': fpt(p), 'tv': fpt(tv), 'tol': W(tol),
+                     'std': fpt(STD_TV)}}
+
+
+def c08_requests(case):
+    w = case['wire']
+    return [('point_inside', ('model.point_inside', [w['vs'], w['p'], w['tv']])),
+            ('point_inside_bound_rect',
+             ('model.point_inside_bound_rect', [w['vs'], w['p'], w['tv']])),
+            ('point_on_edge', ('model.point_on_edge', [w['vs'], w['p'], w['tol']])),
+            ('point_relationship',
+             ('model.point_relationship', [w['vs'], w['p'], w['tol'], w['std']]))]
+
+
+def c08_real(case):
+    """-> {group: value | ('raise', name)}."""
+    out = {}
+    try:
+        pg = Polygon2D([Point2D(x, y) for x, y in case['vs']])
+        pt = Point2D(*case['p'])
+        tv = Vector2D(*case['tv'])
+    except Exception as e:      # noqa: BLE001
+        return dict((g, ('raise', type(e).__name__)) for g in GROUPS['C08'])
+    for g, f in (('point_inside', lambda: pg.is_point_inside(pt, tv)),
+                 ('point_inside_bound_rect', lambda: pg.is_point_inside_bound_rect(pt, tv)),
+                 ('point_on_edge', lambda: pg.is_point_on_edge(pt, case['tol'])),
+                 ('point_relationship', lambda: pg.point_relationship(pt, case['tol']))):
+        try:
+            out[g] = f()
+        except Exception as e:      # noqa: BLE001
+            out[g] = ('raise', type(e).__name__)
+    return out
+
+
+def c08_nontrivial(case, g):
+    if g == 'point_on_edge':
+        return case['near']
+    return case['in_rect']
+
+
+def c08_compare(g, val, real):
+    """-> None | what-key."""
+    if isinstance(real, tuple):
+        return 'raises %s' % real[1]
+    if g == 'point_relationship':
+        if type(real) is not int or int(val) != real:
+            return 'model %s, real %s' % (val, real)
+        return None
+    if type(real) is not bool or bool(val) != real:
+        return 'model %s, real %s' % (val, real)
+    return None
+
+
+def run_c08(ctx, out, hist, stop, thorough, found):
+    r = random.Random('%s/corr.edgeinfo.C08' % ctx.seed)
+    rounds = 0
+    while rounds == 0 or (thorough and time.time() < stop and rounds < 10):
+        cases = []
+        if rounds == 0:
+            for vs, p, tv, tol in FIXED_C08:
+                c = c08_case([(float(a), float(b)) for a, b in vs], (float(p[0]), float(p[1])),
+                             tv, tol, 'lattice', 'std' if tv == STD_TV else 'integer')
+                c['polykind'], c['ptkind'] = 'fixed corpus', 'fixed corpus'
+                cases.append(c)
+        npoly = 800 if thorough else 400
+        for _ in range(npoly):
+            stream = 'lattice' if r.random() < 0.6 else 'float'
+            vs, kind = gen_polygon(r, stream)
+            for _ in range(4):
+                p, pk = gen_point(r, vs, stream)
+                tv, tk = gen_tv(r, stream)
+                c = c08_case(vs, p, tv, r.choice(TOLS), stream, tk)
+                c['polykind'], c['ptkind'] = kind, pk
+                cases.append(c)
+            if time.time() > stop:
+                break
+        reqs, owners = [], []
+        for c in cases:
+            for g, rq in c08_requests(c):
+                reqs.append(rq)
+                owners.append((c, g))
+        answers = ctx.driver.run(reqs)
+        reals = {}
+        for (c, g), (ok, val) in zip(owners, answers):
+            if id(c) not in reals:
+                reals[id(c)] = c08_real(c)
+                bump(hist['C08 polygon'], c['polykind'])
+                bump(hist['C08 point'], c['ptkind'])
+                bump(hist['C08 test vector'], c['tvkind'])
+                bump(hist['C08 stream'], c['stream'])
+                bump(hist['C08 vertices'], len(c['vs']))
+                bump(hist['C08 exact position'], 'boundary' if c['boundary'] else
+                     'in rectangle' if c['in_rect'] else 'outside rectangle')
+            real = reals[id(c)][g]
+            if c['ties'][g] and not isinstance(real, tuple):
+                out['float_ties'] += 1
+                bump(hist['C08 float ties'], g)
+                continue
+            out['requests'] += 1
+            bad = 'driver error: %s' % str(val)[:100] if not ok else c08_compare(g, val, real)
+            if not bad:
+                bump(hist['C08 results ' + g], str(real))
+                if c08_nontrivial(c, g):
+                    out['nontrivial'] += 1
+                if len(out['samples']) < 2 and g == 'point_relationship' and c['in_rect'] \
+                        and c['polykind'] != 'fixed corpus':
+                    out['samples'].append({'op': 'model.' + g, 'args': dict(c08_requests(c))[g][1],
+                                           'model': val, 'real': real, 'agrees': True})
+                continue
+            where = 'boundary point' if c['boundary'] else 'generic point'
+            sig = 'model.%s|%s (%s%s)' % (
+                g, bad, where, ', %s test vector' % c['tvkind'] if g.startswith('point_inside')
+                else '')
+            if sig not in found:
+                found[sig] = {
+                    'signature': sig, 'op': 'model.' + g, 'args': dict(c08_requests(c))[g][1],
+                    'case': {k: c[k] for k in ('vs', 'p', 'tv', 'tol', 'stream', 'tvkind')},
+                    'group': g,
+                    'what': '%s: polygon %s point %s test vector %s tol %s — %s' % (
+                        g, c['vs'], c['p'], c['tv'], c['tol'], bad),
+                    'model': val, 'real': real if not isinstance(real, tuple) else real[1],
+                    'seed': '%s/C08/round%d' % (ctx.seed, rounds)}
+        rounds += 1
+
+
+def c08_check(ctx, case, g):
+    """One case, one group -> None | (what, model, real)."""
+    c = c08_case([tuple(v) for v in case['vs']], tuple(case['p']), tuple(case['tv']),
+                 case['tol'], case['stream'], case['tvkind'])
+    real = c08_real(c)[g]
+    if c['ties'][g] and not isinstance(real, tuple):
+        return None
+    ok, val = ctx.driver.run([dict(c08_requests(c))[g]])[0]
+    bad = 'driver error' if not ok else c08_compare(g, val, real)
+    return (bad, val, real) if bad else None
+
+
+def shrink_c08(ctx, d, deadline):
+    """Drop polygon vertices one at a time while the same kind of disagreement remains."""
+    g = d['group']
+    case = d['case']
+    for _ in range(5):
+        if time.time() > deadline or len(case['vs']) <= 3:
+            break
+        cands = [dict(case, vs=case['vs'][:j] + case['vs'][j + 1:])
+                 for j in range(len(case['vs']))]
+        built = [c08_case([tuple(v) for v in x['vs']], tuple(x['p']), tuple(x['tv']), x['tol'],
+                          x['stream'], x['tvkind']) for x in cands]
+        answers = ctx.driver.run([dict(c08_requests(b))[g] for b in built])
+        better = None
+        for x, b, (ok, val) in zip(cands, built, answers):
+            real = c08_real(b)[g]
+            if not ok or (b['ties'][g] and not isinstance(real, tuple)):
+                continue
+            if c08_compare(g, val, real):
+                better = (x, val, real, dict(c08_requests(b))[g][1])
+                break
+        if better is None:
+            break
+        case = better[0]
+        d = dict(d, case=case, args=better[3], model=better[1],
+                 real=better[2] if not isinstance(better[2], tuple) else better[2][1],
+                 what='%s: polygon %s point %s test vector %s tol %s — model %s real %s' % (
+                     g, case['vs'], case['p'], case['tv'], case['tol'], better[1], better[2]))
+    return d
+
+
+# =================================================================== entry points
+def budget(ctx):
+    thorough = ctx.tier == 'thorough' or bool(getattr(ctx, 'broken', None))
+    t = time.time()
+    wall = 200.0 if thorough else 10.0
+    return thorough, min(t + wall, getattr(ctx, 'deadline', float('inf')) - 5), \
+        t + (280.0 if thorough else 16.0)
+
+
+def run(ctx, prop):
+    t0 = time.time()
+    thorough, stop, hard_stop = budget(ctx)
+    hist = {}
+    out = {'requests': 0, 'nontrivial': 0, 'disagreements': [], 'float_ties': 0,
+           'histograms': hist, 'samples': [], 'groups': GROUPS.get(prop, [])}
+    found = {}
+    if prop == 'C07':
+        for k in ('C07 group', 'C07 style', 'C07 faces', 'C07 edges', 'C07 edge types',
+                  'C07 is_solid'):
+            hist[k] = {}
+        out['rule'] = ('request = one face-index structure run through the model and the real '
+                       'constructor / _compute_edge_info; non-trivial = the loop leaves the '
+                       '"append a new edge" branch: some edge is met again (type >= 1) or a '
+                       'degenerate side is skipped')
+        run_c07(ctx, out, hist, stop, thorough, found)
+        shrinker = shrink_c07
+    elif prop == 'C08':
+        for k in ['C08 polygon', 'C08 point', 'C08 test vector', 'C08 stream', 'C08 vertices',
+                  'C08 exact position', 'C08 float ties'] + \
+                ['C08 results ' + g for g in GROUPS['C08']]:
+            hist[k] = {}
+        out['rule'] = ('request = one containment query (one of 4 routines) on a polygon / '
+                       'point / test vector / tolerance; non-trivial = the point lies in the '
+                       'bounding rectangle (the ray count decides) — for point_on_edge: within '
+                       '4 tolerances of the boundary')
+        run_c08(ctx, out, hist, stop, thorough, found)
+        shrinker = shrink_c08
+    else:
+        out['rule'] = 'property not covered by this module'
+        return out
+    for n, sig in enumerate(sorted(found)[:8]):
+        d = found[sig]
+        if n < 3 and time.time() < hard_stop:
+            try:
+                d = shrinker(ctx, d, hard_stop)
+            except Exception:       # noqa: BLE001 - shrinking is best effort
+                pass
+        out['disagreements'].append(d)
+    out['seconds'] = round(time.time() - t0, 1)
+    return out
+
+
+def replay(ctx, disagreement):
+    """Re-run one recorded disagreement on the current tree."""
+    if disagreement['op'] in ('model.edge_info', 'model.mesh_edge_info'):
+        return replay_c07(ctx, disagreement)
+    bad = c08_check(ctx, disagreement['case'], disagreement['group'])
+    if not bad:
+        return None
+    return dict(disagreement, model=bad[1],
+                real=bad[2] if not isinstance(bad[2], tuple) else bad[2][1])
+
+
+if __name__ == '__main__':
+    class Ctx(object):
+        pass
+    ctx = Ctx()
+    ctx.seed = int(sys.argv[1]) if len(sys.argv) > 1 else int(os.environ.get('VERIF_SEED', '0'))
+    ctx.tier = sys.argv[2] if len(sys.argv) > 2 else os.environ.get('VERIF_TIER', 'quick')
+    props = sys.argv[3:] or PROPS
+    ctx.broken = []
+    ctx.driver = lbg.Driver()
+    ctx.deadline = time.time() + 3600
+    rc = 0
+    for prop in props:
+        t = time.time()
+        res = run(ctx, prop)
+        print('%s %s seed %s %s: %d requests, %d non-trivial, %d float ties, %d disagreements, '
+              '%.1f s' % (os.path.basename(__file__), prop, ctx.seed, ctx.tier, res['requests'],
+                          res['nontrivial'], res['float_ties'], len(res['disagreements']),
+                          time.time() - t))
+        for k, v in sorted(res['histograms'].items()):
+            print('  %s: %s' % (k, dict(sorted(v.items(), key=lambda kv: str(kv[0])))))
+        for d in res['disagreements']:
+            rc = 1
+            print('DISAGREEMENT', d['signature'], '::', d['what'][:400])
+            again = replay(ctx, d)
+            print('   replay:', 'reproduced' if again else 'NOT reproduced')
+    sys.exit(rc)
